@@ -336,10 +336,27 @@ class Scope:
                 out.append((b, None, Scope(self.prog, self.prog.fns[cid], env, None, self, ("local", None), 2)))
         return out
 
-    def all_scopes(self):
+    def all_scopes(self, _depth=0, _seen=None):
+        """this body, its closures, and (interprocedurally) the private helper functions of the same module it calls, each instantiated
+        at its call site with the parameters bound to the caller's arguments - so that moving a loop or a literal into a helper does not hide it"""
         yield self
         for (_, _, ch) in self.children():
-            yield from ch.all_scopes()
+            yield from ch.all_scopes(_depth, _seen)
+        if _depth >= 3 or not FOLLOW_HELPERS:
+            return
+        _seen = _seen if _seen is not None else {self.prog.root_of(self.fn).id}
+        mod = self.prog.root_of(self.fn).path.rsplit("::", 1)[0]
+        for b, t in self.body.calls():
+            c = callee_of(t)
+            if not c:
+                continue
+            fn = self.prog.fns.get(c.get("rid") or c["id"])
+            if fn is None or fn.kind != "fn" or fn.raw.get("pub") or fn.id in _seen or fn.body.argc != len(t["args"]):
+                continue
+            if fn.path.rsplit("::", 1)[0] != mod:
+                continue
+            hsc = Scope(self.prog, fn, argmap={i + 1: self.operand(a) for i, a in enumerate(t["args"])}, parent=None, via=("helper", None))
+            yield from hsc.all_scopes(_depth + 1, _seen | {fn.id})
 
 
 # --------------------------------------------------------------------------- element provenance (collections / iterator chains)
@@ -432,6 +449,7 @@ def value_prov(prog, node, depth=0):
 
 # --------------------------------------------------------------------------- inlining of small helper functions
 
+FOLLOW_HELPERS = True     # all_scopes() descends into private free functions of the same module
 PROG = None      # set by run.py: the Program the rules run on (needed to resolve helper calls inside expression trees)
 
 
